@@ -35,7 +35,7 @@ DELIVERABLES in @WT@-out/ :
  - patch.diff : output of `git diff` for your source change (non-test files only), applicable with `git apply` on a clean checkout of the same commit.
  - demo/ : one or more NEW Go test files (keep their repo-relative paths under demo/, e.g. demo/keeper/component/forwarder/seed_demo_test.go) that FAIL when the patch is applied and PASS on the clean tree, plus RUN.txt with the exact command(s) to run them from the worktree root. The demonstration must exercise the breakage through real code paths of the repository (mocks from testutil/ are acceptable for external modules).
  - meta.json : {"property": "@ID@", "summary": "...what the change does...", "needs_to_manifest": "...the specific condition...", "files_touched": [...], "verified": {"build": "...", "suite_with_patch": "pass/fail + command", "demo_with_patch": "fail (expected)", "demo_without_patch": "pass"}}
-Before finishing, VERIFY all of it yourself: apply patch -> build ok, full suite passes, demo fails; revert patch (git checkout -- . but keep demo files) -> demo passes. Leave the worktree with the patch APPLIED and the demo test files copied into place. Report briefly what you changed and the verification results. Spend at most about 35 minutes. If after honest effort you cannot find a change that keeps the suite green, say so and deliver your best attempt with an accurate meta.json.
+Before finishing, VERIFY all of it yourself: apply patch -> build ok, full suite passes, demo fails; revert patch (`git apply -R patch.diff` or `git checkout -- .`, keeping the demo files) -> demo passes. NEVER use `git stash`: its ref is shared by all worktrees of this repository and other engineers are working in sibling worktrees at the same time. Leave the worktree with the patch APPLIED and the demo test files copied into place. Report briefly what you changed and the verification results. Spend at most about 35 minutes. If after honest effort you cannot find a change that keeps the suite green, say so and deliver your best attempt with an accurate meta.json.
 """
 
 ADVICE = """Directions none of the earlier changes used much, as inspiration (pick whatever fits the property, or something else entirely): behaviour that depends on the execution context (block height or time, the gas meter, the event manager, check/simulate mode, a context value); an error that is converted, wrapped or compared (errors.Is / sentinel) so that one particular failure is mistaken for another; a value that is correct at one call site and stale at another (computed before a step that changes it); a rule applied on one of two paths that must agree (message vs genesis, query vs execution, validation vs execution, one route vs another, first element vs later elements of a list); aliasing (a slice, pointer or coin shared between two holders and modified by one); a default that differs from the explicit value (nil vs empty, zero vs unset, omitted proto field); a boundary of a type, a collection, a key encoding or an identifier grammar; an interaction between two features (fees and passthrough payload, pause and genesis, dust and a denomination-changing action, two transfers in the same block)."""
